@@ -5947,7 +5947,9 @@ class Query(object):
                 if stat is not None: stat.cache_count += 1
                 else: stats[sql] = QueryStat(sql)
             if query._prefetch: query._do_prefetch(items)
-        return items
+        # the list kept in cache.query_results must not be the one handed out: QueryResult.reverse() / sort() /
+        # shuffle() change their list in place
+        return list(items) if query_key is not None else items
     @cut_traceback
     def prefetch(query, *args):
         query = query._clone(_prefetch_context=query._prefetch_context.copy())
